@@ -135,6 +135,28 @@ def run(ck, repo: Repo, tier: str):
 
     _pg_weights(ck, repo, nf)
     _ppo_update(ck, repo, nf)
+    _value_shapes(ck, repo)
+
+
+def _value_shapes(ck, repo):
+    """Symbolic shapes of the losses that combine critic outputs (N,1) with per-sample vectors (N,)."""
+    from ..shapes import ShapeEngine
+    cases = [
+        ("rl_blox.algorithm.ppo.ppo_loss", {"observations": ("B", "O"), "actions": ("B", "A"), "advantages": ("B",), "returns": ("B",), "old_logps": ("B",), "clip": ()}, {"critic": 1}),
+        ("rl_blox.blox.losses.mse_value_loss", {"observations": ("B", "O"), "v_target_values": ("B",)}, {"v": 1}),
+        ("rl_blox.algorithm.sac.sac_actor_loss", {"observations": ("B", "O"), "alpha": ()}, {"q": 1}),
+        ("rl_blox.algorithm.actor_critic.actor_critic_policy_gradient", {"observations": ("B", "O"), "actions": ("B", "A"), "next_observations": ("B", "O"), "rewards": ("B",), "gamma_discount": ("B",), "gamma": ()}, {"value_function": 1}),
+        ("rl_blox.algorithm.reinforce.reinforce_gradient", {"observations": ("B", "O"), "actions": ("B", "A"), "returns": ("B",), "gamma_discount": ("B",)}, {"value_function": 1}),
+    ]
+    for q, env, mods in cases:
+        fn = repo.func(q)
+        se = ShapeEngine(repo)
+        se.module_out = dict(mods)
+        se.analyse(fn, fn._module, q, env)
+        if not se.alarms:
+            ck.ob("R5-value-shapes", q, "shapes", True, f"no shape alarm with {env} and critic output (B,1); {len(se.trace)} expressions typed", "", loc(fn._module, fn))
+        for rel, line, kind, text, qual in se.alarms:
+            ck.ob("R5-value-shapes", q, f"shape:{kind}", False, f"{kind}", text + " - the term is not the per-sample squared error / weight", f"{rel}:{line}")
 
 
 def _role_transfer(ck, repo, nf, uq, fn, lq, b, site, rule):
@@ -271,6 +293,12 @@ MUTANTS = [
     {"id": "c12-td7-q1-only", "file": "rl_blox/algorithm/td7.py", "rule": "R3", "find": "    return -critic.mean(obs_act, zs=zs, zsa=zsa).mean()", "replace": "    return -critic.q1(obs_act, zs=zs, zsa=zsa).mean()"},
     {"id": "c12-mrq-penalty-sign", "file": "rl_blox/algorithm/mrq.py", "rule": "R3", "find": "    policy_loss = dpg_loss + activation_weight * policy_regularization", "replace": "    policy_loss = dpg_loss - activation_weight * policy_regularization"},
     {"id": "c12-mrq-penalty-on-action", "file": "rl_blox/algorithm/mrq.py", "rule": "R3", "find": "    policy_regularization = jnp.square(activation).mean()", "replace": "    policy_regularization = jnp.square(action).mean()"},
+]
+MUTANTS += [
+    {"id": "c12-ppo-value-no-flatten", "file": "rl_blox/algorithm/ppo.py", "rule": "R5", "find": "    values = critic(observations).flatten()", "replace": "    values = critic(observations)"},
+    {"id": "c12-value-loss-no-squeeze", "file": _L, "rule": "R5", "find": "    values = v(observations).squeeze()  # squeeze Nx1-D -> N-D", "replace": "    values = v(observations)"},
+    {"id": "c12-ac-no-squeeze", "file": "rl_blox/algorithm/actor_critic.py", "rule": "R5", "find": "    v_next = value_function(next_observations).squeeze()", "replace": "    v_next = value_function(next_observations)"},
+    {"id": "c12-sac-actor-no-squeeze", "file": "rl_blox/algorithm/sac.py", "rule": "R5", "find": "    q_value = q(obs_act).squeeze()\n    actor_loss", "replace": "    q_value = q(obs_act)\n    actor_loss"},
 ]
 BENIGN = [
     {"id": "c12-b-pseudo-mean-neg", "file": _L, "find": "    return -jnp.mean(weight * logp)", "replace": "    return jnp.mean(-logp * weight)"},
